@@ -243,7 +243,8 @@ def examine(case):
     if case["delivery"].startswith("literal") and not isinstance(pattern, str):
         return None
     expected = [i for i, s in enumerate(case["subjects"]) if s != "<missing>" and expect(fn, pattern, s)]
-    status, got = lib.find(q, doc)
+    with lib.ambient(case.get("ambient")):
+        status, got = lib.find(q, doc)
     pclass = "invalid-pattern" if isinstance(pattern, str) and not iregexp.valid(pattern) else \
         "non-string-pattern" if not isinstance(pattern, str) else "valid"
     if status == "err":
@@ -339,8 +340,12 @@ def run_shard(spec, shard):
             return
         subjects = [gen_subject(ast, r) for _ in range(nsub)]
         delivery = r.choice(["literal", "literal-dq", "doc", "doc"])
+        amb = r.choice(lib.REGEX_AMBIENTS) if r.random() < 0.25 else None
         for fn in ("match", "search"):
             case = {"fn": fn, "pattern": pattern, "delivery": delivery, "subjects": subjects}
+            if amb:
+                case["ambient"] = amb     # the regex package's process-wide default version, as a host may have set it
+                shard.classes["ambient:" + amb] += len(subjects)
             f = examine(case)
             for s in subjects:
                 m, sr = iregexp.match(pattern, s), iregexp.search(pattern, s)
